@@ -2,6 +2,12 @@
 
 #![cfg_attr(not(target_os = "macos"), allow(unused))]
 
+// Under `--cfg divan_verif` every `std::…` path in this file resolves to the
+// simulator's instrumented drop-in (see `util/thread/pool.rs`), so that the
+// atomics defined here are scheduling points too.
+#[cfg(all(divan_verif, not(miri)))]
+use ::dsim::shim as std;
+
 use std::{
     ops::{Deref, DerefMut},
     sync::atomic::*,
